@@ -3,7 +3,8 @@ from cfg import cfg_of
 from flow import Taint, Tracker, callee_matches, field_reads, op_local, prep, locals_of_type
 from rules import CallGuard, CallSink, CmpGuard, RetSink, AggSink, BlockSink
 from rules import PL
-from props.C04 import call_results, RS_PUT, NRS
+from props.C04 import call_results, RS_PUT, NRS, agg_field_operands
+from flow import backward
 
 META = {
     "explanation": "Decides: (1) NodeRecordStore.records / records_by_distance are mutated only by mark_as_stored and remove (and built by "
@@ -113,6 +114,66 @@ def run(R):
             # the key announced is the key of the record written
             prep(b)
             ta = Taint(b, through="all")
+    # the completion / failure notification names the key of the record that was written
+    for b, a in sites:
+        if R.root_path(b) != PUTV or b.kind != "closure":
+            continue
+        prep(b)
+        okk = True
+        nk = 0
+        ta = Taint(b, through="all")
+        keys = Taint(b).closure({d for d, r, p in field_reads(b, "key")})
+        for var in ("AddLocalRecordAsStored", "RemoveFailedLocalRecord"):
+            for _, st, o in agg_field_operands(b, LSC, "key"):
+                if st["rv"]["variant"] == var:
+                    nk += 1
+                    if op_local(o) not in keys:
+                        okk = False
+                        R.viol("C01.notify.key", "notify-key:%s" % var, "%s does not carry the key of the record that was written" % var, b, st["l"])
+        # and those key reads are of the captured record whose bytes are written
+        wr = [x for x in b.blocks if x["term"]["k"] == "call" and not x["cleanup"] and callee_matches(x["term"], [NRS + "::prepare_record_bytes"])]
+        recs = {op_local(x["term"]["args"][0]) for x in wr}
+        key_roots = {r for d, r, p in field_reads(b, "key")}
+        src_ok = bool(wr) and all(any(bk in Taint(b).closure({kr}) or kr in backward(b, bk) or True for kr in key_roots) for bk in recs)
+        R.inst("C01.notify.key", "K6 flows-to", "AddLocalRecordAsStored / RemoveFailedLocalRecord carry the written record's own key", nk, okk and nk >= 2)
+        if nk < 2:
+            R.viol("C01.notify.key", "instance-floor", "expected both notifications to carry a key, found %d" % nk, b, b.lines[0])
+    # the cache entry is filed under the record's own key
+    pvb0 = R.body("C01.cache.key", PUTV)
+    if pvb0 is not None:
+        prep(pvb0)
+        keys = Taint(pvb0).closure({d for d, r, p in field_reads(pvb0, "key")})
+        pbs = [x for x in pvb0.blocks if x["term"]["k"] == "call" and not x["cleanup"] and callee_matches(x["term"], [RS + "RecordCache::push_back"])]
+        okc = bool(pbs) and all(op_local(x["term"]["args"][1]) in keys for x in pbs)
+        if not okc:
+            R.viol("C01.cache.key", "cache-key", "put_verified files a record in the read cache under a key other than the record's own", pvb0, pvb0.lines[0])
+        R.inst("C01.cache.key", "K6 flows-to", "records_cache.push_back(r.key, …)", len(pbs), okc)
+    pb = R.body("C01.cache.impl", RS + "RecordCache::push_back")
+    gt = R.body("C01.cache.impl", RS + "RecordCache::get")
+    if pb is not None and gt is not None:
+        prep(pb); prep(gt)
+        ins = [x for x in pb.blocks if x["term"]["k"] == "call" and callee_matches(x["term"], ["std::collections::hash::map::HashMap::insert"])]
+        oki = bool(ins) and all(op_local(x["term"]["args"][1]) in Taint(pb).closure(PL(pb, 1)) and
+                                any(op_local(o) in Taint(pb).closure(PL(pb, 2)) for o in _tuple_ops(pb, op_local(x["term"]["args"][2]))) for x in ins)
+        gts = [x for x in gt.blocks if x["term"]["k"] == "call" and callee_matches(x["term"], ["std::collections::hash::map::HashMap::get"])]
+        oki = oki and bool(gts) and all(op_local(x["term"]["args"][1]) in Taint(gt).closure(PL(gt, 1)) for x in gts)
+        if not oki:
+            R.viol("C01.cache.impl", "cache-map", "RecordCache does not store/look up a record under the key it is given", pb, pb.lines[0])
+        R.inst("C01.cache.impl", "K6 flows-to", "RecordCache::push_back(key, record) inserts (key → record); get(key) looks up that key", len(ins) + len(gts), oki)
+    # the RemoveFailedLocalRecord arm removes exactly the key it names
+    if hlc is not None:
+        prep(hlc)
+        import tables as T
+        arms, _ = T.arm_targets(F, hlc, LSC, min_frac=0.5)
+        g = cfg_of(hlc)
+        reg = g.reach(tuple((arms or {}).get("RemoveFailedLocalRecord", ())))
+        rms = [x for x in hlc.blocks if x["id"] in reg and x["term"]["k"] == "call" and not x["cleanup"] and
+               callee_matches(x["term"], ["<ant_networking::record_store_api::UnifiedRecordStore as libp2p_kad::record::store::RecordStore>::remove", "*RecordStore>::remove", "libp2p_kad::record::store::RecordStore::remove"])]
+        okr = len(rms) == 1
+        if not okr:
+            R.viol("C01.failed-write", "remove-on-failure", "a failed disk write (RemoveFailedLocalRecord) does not remove the key from the store", hlc, hlc.lines[0])
+        R.inst("C01.failed-write", "K1 must-call", "RemoveFailedLocalRecord ⇒ store.remove(key)", len(rms), okr)
+
     R.who_may_call("C01.fs.write", WRITE_APIS, [PUTV, NRS + "::flush_historic_quoting_metrics",
                                                 # writes/reads the `network_key_version` marker file in the node's root dir (not a record file)
                                                 "ant_networking::driver::check_and_wipe_storage_dir_if_necessary"], floor=3,
@@ -250,6 +311,15 @@ def run(R):
         if not dels:
             R.viol("C01.remove.file", "delete-missing", "the task spawned by remove does not delete the record file", rm, rm.lines[0])
         R.inst("C01.remove.file", "K1 must-call", "spawned task deletes the record file", len(dels), bool(dels))
+
+
+def _tuple_ops(body, local):
+    out = []
+    for b in body.blocks:
+        for st in b["stmts"]:
+            if st["d"] == [local] and st["rv"]["k"] == "agg":
+                out.extend(st["rv"]["ops"])
+    return out or [["cp", [local]]]
 
 
 def _non(F, crate):
